@@ -161,6 +161,50 @@ func runC10(r *Result, thorough bool) {
 			cl.pull(a, b, -1)
 			cl.activateJoiners()
 		}
+		// "only peers in a round's set can have block signatures accepted for it": every member that
+		// ever was or became a validator signs every block a node holds; after ProcessSigPool the
+		// signatures recorded on a block are exactly allowed to come from the set of its round received
+		for _, host := range cl.activeMembers()[:2] {
+			hgb := host.core.Hashgraph()
+			for _, m := range cl.members {
+				if m.core == nil {
+					continue
+				}
+				for idx := 0; idx <= hgb.Store.LastBlockIndex(); idx++ {
+					if blk, err := hgb.Store.GetBlock(idx); err == nil {
+						if bs, err := blk.Sign(m.key); err == nil {
+							hgb.PendingSignatures.Add(bs)
+						}
+					}
+				}
+			}
+			guarded(func() error { return host.core.ProcessSigPool() })
+			r.Inc("signature_sweeps", 1)
+			for idx := 0; idx <= hgb.Store.LastBlockIndex(); idx++ {
+				blk, err := hgb.Store.GetBlock(idx)
+				if err != nil {
+					continue
+				}
+				set, err := hgb.Store.GetPeerSet(blk.RoundReceived())
+				if err != nil {
+					continue
+				}
+				for _, m := range cl.members {
+					if m.core == nil {
+						continue
+					}
+					_, member := set.ByPubKey[m.hex]
+					_, signed := blk.Signatures[m.hex]
+					if signed && !member {
+						r.Violate("impl-violation", fmt.Sprintf("node %d block %d (round received %d): a signature of member %d was accepted although it is not in the validator set of that round", host.idx, idx, blk.RoundReceived(), m.idx), "signature-of-non-member", nil)
+					}
+					if member && !signed {
+						r.Violate("impl-violation", fmt.Sprintf("node %d block %d (round received %d): the signature of member %d, a validator of that round, was not accepted", host.idx, idx, blk.RoundReceived(), m.idx), "signature-of-member-refused", nil)
+					}
+					r.Inc("signature_membership_checks", 1)
+				}
+			}
+		}
 		// a late joiner replaying the whole history from genesis (no fast sync)
 		late := newMember(cl.rng, len(cl.members))
 		cl.mkCore(late, cl.genesis)
